@@ -235,7 +235,7 @@ func isBlank(line []byte) bool {
 func QuoteDoc(r *core.Rand, doc []byte) []byte {
 	var b bytes.Buffer
 	for _, l := range SplitLines(doc) {
-		if isBlank(l) && r != nil && r.Bool() {
+		if len(bytes.TrimRight(l, "\r\n")) == 0 && r != nil && r.Bool() {
 			b.WriteString(">")
 		} else {
 			b.WriteString("> ")
